@@ -1986,6 +1986,7 @@ func (p *PubSub) PublishBatch(batch *MessageBatch, opts ...BatchPubOpt) error {
 	}
 	setDefaultBatchPublishOptions(publishOptions)
 
+	verifYieldBatch(batch, verifSendBatch)
 	select {
 	case p.sendMessageBatch <- messageBatchAndPublishOptions{
 		messages: batch.take(),
